@@ -40,8 +40,10 @@ let () =
     let status = ref 0 in
     let used = ref 0 in
     let bad = ref (-1) in
+    let trace = ref [] in
     let choose (st : KauriTree.state) =
       let it = int_of_nat st.KauriTree.st_nl - 1 in
+      trace := (st.KauriTree.st_nl, st.KauriTree.st_nc, st.KauriTree.st_queue) :: !trace;
       if it < Array.length splits then begin
         let sp = splits.(it) in
         if not (KauriTree.admissibleb p d x st sp) then (if !status = 0 then (status := 2; bad := it));
@@ -63,11 +65,12 @@ let () =
        out_list (out_opt out_nat) (KauriTree.predict tr fresh);
        out_list (out_opt out_nat) (Stdlib.List.map (KauriTree.route_leaf tr) fresh);
        out_list out_nat (Stdlib.List.mapi (fun a _ -> KauriTree.node_count tr x (nat_of_int a)) tr);
-       out_nat (KauriTree.count_leaves tr); out_nat (KauriTree.tree_depth tr)));
-  (* c09.score <K> <labels> <kernel matrix> : gemini_objective in the float instance *)
+       out_nat (KauriTree.count_leaves tr); out_nat (KauriTree.tree_depth tr);
+       (* loop state at every oracle call: n_leaves, n_clusters, leaves_to_explore *)
+       out_list (fun (a, b, q) -> out_nat a; out_nat b; out_list out_nat q) (Stdlib.List.rev !trace)));
+  (* c09.objective <K> <labels> <kernel matrix> : gemini_objective in the float instance *)
   register "c09.objective" (fun t ->
     let k = next_nat t in let lab = Array.of_list (next_list next_int t) in
     let (r, _, ker) = next_mat t in
     out_float (KauriTree.objective fops (nat_of_int r) k ker (fun i -> nat_of_int lab.(int_of_nat i))));
-  (* c09.route <tree as printed by c09.fit> is not needed: predict is part of c09.fit *)
   ()
